@@ -248,6 +248,34 @@ def run_files(spec, M):
                         {"kind": "file", "text": text})
         paths.append(p)
         texts.append(text)
+    # files change between reads: same path, other text of the same byte length, modification time put back; also a
+    # shorter and a longer text.  source_event must return what the file holds now.
+    for k, p in enumerate(paths[:8]):
+        old_text = texts[k]
+        st = os.stat(p)
+        variants = [("same length", "".join(chr(ord(c) ^ 1) if c.isascii() and c.isalnum() else c for c in old_text)),
+                    ("longer", old_text + "# appended\n"), ("shorter", old_text[:len(old_text) // 2])]
+        for what, new_text in variants:
+            try:
+                data = new_text.encode("utf8")
+            except UnicodeEncodeError:
+                continue
+            if new_text == old_text:
+                continue
+            with open(p, "wb") as fh:
+                fh.write(data)
+            os.utime(p, ns=(st.st_atime_ns, st.st_mtime_ns))
+            M.count("rewritten_files_checked")
+            try:
+                ev = source_event(p)
+            except Exception as e:
+                ev = {"raised": repr(e)[:200]}
+            if ev != {"source": {"uri": p, "data": new_text, "mediaType": MEDIA}}:
+                M.violation("C17.source_event", {"what": "after the file was rewritten (%s text, same modification time) source_event(path) does not return the file's present text" % what,
+                                                 "returns_old_text": ev.get("source", {}).get("data") == old_text}, {"kind": "file", "text": new_text})
+            old_text = new_text
+        with open(p, "wb") as fh:
+            fh.write(texts[k].encode("utf8"))
     M.count("source_event_sequences_checked")
     try:
         evs = list(SourceEvents(paths).enum())
